@@ -9,6 +9,7 @@ import (
 	"strings"
 	"time"
 
+	authp "github.com/buzzfeed/sso/internal/auth/providers"
 	"github.com/buzzfeed/sso/internal/pkg/aead"
 	"github.com/buzzfeed/sso/internal/pkg/sessions"
 	"github.com/buzzfeed/sso/verif/engine/explore"
@@ -248,6 +249,111 @@ func c09Run(c *fw.Ctx) {
 		}
 	})
 
+	// ---- 1b. what "the identity provider currently accepts" means, provider by provider ----------
+	// (Google's endpoints are hard-coded in its constructor, so the three providers are driven at their
+	// own API with their URL fields pointed at the scripted identity provider, as in C10.)
+	{
+		idp := e.IdP
+		pd := func() *authp.ProviderData {
+			return &authp.ProviderData{ClientID: "cid", ClientSecret: "cs", SessionLifetimeTTL: time.Hour}
+		}
+		gp, err := authp.NewGoogleProvider(pd(), "", "", "", "")
+		if err != nil {
+			panic(explore.HarnessError{Msg: err.Error()})
+		}
+		gp.RedeemURL = &url.URL{Scheme: "https", Host: idp.Addr(), Path: "/oauth2/v4/token"}
+		gp.ValidateURL = &url.URL{Scheme: "https", Host: idp.Addr(), Path: "/oauth2/v3/tokeninfo"}
+		op, err := authp.NewOktaProvider(pd(), idp.Addr(), "")
+		if err != nil {
+			panic(explore.HarnessError{Msg: err.Error()})
+		}
+		cp, err := authp.NewAmazonCognitoProvider(pd(), idp.Addr(), "us-east-1", "pool-id", "aws-id", "aws-secret")
+		if err != nil {
+			panic(explore.HarnessError{Msg: err.Error()})
+		}
+		type prov interface {
+			ValidateSessionState(*sessions.SessionState) bool
+			RefreshSessionIfNeeded(*sessions.SessionState) (bool, error)
+		}
+		provs := []struct {
+			name string
+			p    prov
+		}{{"google", gp}, {"okta", op}, {"cognito", cp}}
+		statuses := []int{200, 201, 204, 400, 401, 403, 404, 429, 500, 503}
+		shapes := []string{"affirmative", "negative", "empty", "malformed"}
+		drive(c, "provider-acceptance", -1, func(x *explore.Exec, owned bool) {
+			pv := provs[x.Choose("provider", len(provs))]
+			op := []string{"validate", "refresh"}[x.Choose("operation", 2)]
+			st := statuses[x.Choose("status", len(statuses))]
+			shape := shapes[x.Choose("body", len(shapes))]
+			reset := x.Choose("connection-reset", 2) == 1
+			var calls []string
+			idp.Answer = func(cl *harness.IdPCall) harness.AuthAnswer {
+				calls = append(calls, cl.Endpoint)
+				body := ""
+				switch shape {
+				case "affirmative":
+					body = map[string]string{"token": `{"access_token":"refreshed-access-token","expires_in":1800}`, "introspect": `{"active":true,"aud":"cid","expires_in":1000}`,
+						"userinfo": `{"email":"bob@corp.test","email_verified":true,"username":"bob"}`}[cl.Endpoint]
+				case "negative":
+					body = map[string]string{"token": `{"error":"invalid_grant"}`, "introspect": `{"active":false}`, "userinfo": `{"error":"invalid_token"}`}[cl.Endpoint]
+				case "malformed":
+					body = `{"active":tru`
+				}
+				a := ans(st, body)
+				if reset {
+					a = harness.AuthAnswer{Reset: true}
+				}
+				cl.Answer = describeAnswer(a)
+				return a
+			}
+			L := harness.At(2 * time.Hour)
+			sess := &sessions.SessionState{AccessToken: "idp-access-token", RefreshToken: "idp-refresh-token", Email: "bob@corp.test", User: "bob",
+				LifetimeDeadline: L, RefreshDeadline: harness.At(-time.Minute), ValidDeadline: future}
+			var ok bool
+			var opErr error
+			var panicked interface{}
+			func() {
+				defer func() { panicked = recover() }()
+				if op == "validate" {
+					ok = pv.p.ValidateSessionState(sess)
+				} else {
+					ok, opErr = pv.p.RefreshSessionIfNeeded(sess)
+				}
+			}()
+			if !owned {
+				return
+			}
+			d := map[string]interface{}{"provider": pv.name, "operation": op, "status": st, "body": shape, "connection_reset": reset, "result": ok, "error": fmt.Sprint(opErr), "identity_provider_calls": calls}
+			c.Res.Outcome(fmt.Sprintf("provider-acceptance|%s|%s|%d|%s|%v|%v|%v", pv.name, op, st, shape, reset, ok, opErr != nil))
+			viol := func(key, what string) {
+				c.Res.Violate(fw.Violation{Property: "C09", Key: "C09/provider-acceptance/" + key, What: what, Scenario: "provider-acceptance", Choices: x.Choices(), Detail: d})
+			}
+			if panicked != nil {
+				viol("panic/"+pv.name+"/"+op, fmt.Sprint(panicked))
+				return
+			}
+			// what is judged: an answer other than 200 (or none at all) never counts as acceptance, and neither
+			// does Okta's explicit {"active":false}. What a provider makes of a 200 whose body is empty, malformed
+			// or an error document is not judged: real identity providers signal refusal by status (Google's
+			// tokeninfo, for one, is read by status alone).
+			accepted := !reset && st == 200 && !(pv.name == "okta" && op == "validate" && shape == "negative")
+			if ok && opErr == nil {
+				c.Res.Count("positive_provider_accepted", 1)
+				if !accepted {
+					viol(fmt.Sprintf("%s/%s-treated-as-accepted/status=%d/body=%s/reset=%v", pv.name, op, st, shape, reset),
+						fmt.Sprintf("%s.%s reported the token as accepted although the identity provider answered %d (%s body, reset=%v)", pv.name, op, st, shape, reset))
+				}
+				if len(calls) == 0 {
+					viol(pv.name+"/"+op+"-accepted-without-asking", "the token was reported as accepted without any identity-provider call")
+				}
+			}
+			if !sess.LifetimeDeadline.Equal(L) {
+				viol(pv.name+"/"+op+"-moved-lifetime", fmt.Sprintf("the session's lifetime deadline moved from %s to %s", L.Format(time.RFC3339), sess.LifetimeDeadline.Format(time.RFC3339)))
+			}
+		})
+	}
+
 	// ---- 2. identity-provider callback ----------------------------------------------------------
 	nonceA, nonceB := "aaaaaaaaaaaaaaaaaaaaaaaaaaaaaaaa", "bbbbbbbbbbbbbbbbbbbbbbbbbbbbbbbb"
 	b64 := func(s string) string { return base64.URLEncoding.EncodeToString([]byte(s)) }
@@ -391,6 +497,7 @@ func init() {
 		ID:    "C09",
 		Level: "exploration",
 		Rule: "(sign_in) correctly signed sign-in requests with authenticator cookie {absent, garbage, sealed under another key, genuine x lifetime {future, past} x token deadline {future, past} x refresh token {yes, no} x email {in domain, other domain, look-alike domain}} and the IdP's answers chosen on demand: introspect {active, inactive, 500, malformed}, refresh {200, 400 revoked, 500, malformed}; " +
+			"(provider-acceptance) GoogleProvider, OktaProvider and AmazonCognitoProvider at their own API (URLs pointed at the scripted IdP): ValidateSessionState and RefreshSessionIfNeeded x status {200, 201, 204, 400, 401, 403, 404, 429, 500, 503} x body {affirmative, negative, empty, malformed} x connection reset; accepted => the answer was a 200 (and not Okta's {active:false}), and the lifetime deadline never moves; " +
 			"(sign_in-cognito) a valid Cognito-flavoured session (token deadline future/past) x userinfo answers {200, 401, 403, 404, 400, 429, 500, malformed} x refresh answers {200, 401, 403, 400, 500}; (callback) state {nonce_A / nonce_B with in-domain return, nonce_A with out-of-domain return, no colon, not base64, absent, empty nonce} x CSRF cookie {nonce_A, nonce_B, absent, odd} x code redemption {ok, rejected} x userinfo {verified in-domain, verified out-of-domain, unverified}; " +
 			"(history) a real login followed by 4 (thorough 6) signed sign-ins separated by gaps {below token expiry, beyond it, far beyond it, beyond the lifetime} with introspect {active, inactive} and refresh {ok, revoked, 503} on demand, the real cookies carried along. " +
 			"Oracle: a string that opens under the authenticator's code cipher appears in a response (every base64url-looking token of every header and the body is tried) only in a redirect to the signed URI, only for an authentic cookie within its lifetime whose token the IdP accepted in this step (after a refresh if due) and whose email passes the rule, and carries that user's email; the callback creates a session only when the state nonce equals the CSRF cookie, the code redeemed for a verified in-rule email and the return address is in domain; the lifetime deadline of re-issued cookies never changes; " +
